@@ -182,11 +182,30 @@ static void run_text(Ctx &ctx, Choices *c, const std::string &T, const std::vect
 	for (int f : flagsets)
 	{
 		Checker ck(ctx, T, f, depth);
-		ck.all_two_splits();
-		if (three)
-			ck.all_three_splits();
-		if (T.size() > 2)
-			ck.bytewise();
+		if (T.size() <= 450)
+		{
+			ck.all_two_splits();
+			if (three)
+				ck.all_three_splits();
+			if (T.size() > 2)
+				ck.bytewise();
+		}
+		else if (c)
+		{
+			// long texts (tokens of several KiB): sampled 2-splits and 3-splits, biased to the ends of the long token
+			for (int rep = 0; rep < 10; rep++)
+			{
+				size_t p1 = 1 + c->pickn(T.size() - 1);
+				if (rep < 3)
+					p1 = T.size() - 1 - c->pickn(std::min<size_t>(T.size() - 1, 40));
+				ck.partition({p1});
+				size_t p2 = 1 + c->pickn(T.size() - 1);
+				if (p2 != p1)
+					ck.partition({std::min(p1, p2), std::max(p1, p2)});
+			}
+			if (c->coin(10))
+				ck.bytewise();
+		}
 		if (c && T.size() > 3)
 		{
 			// random k-chunk partitions
@@ -277,6 +296,32 @@ void run_case(Choices &c, Ctx &ctx)
 	{
 		size_t n = c.range(0, 64);
 		T = c.bytes(n);
+	}
+	else if (c.coin(6))
+	{
+		// one very long token (string, member name, number or comment) inside a small document
+		size_t n = (size_t)c.range(600, 9000);
+		std::string filler;
+		while (filler.size() < n)
+		{
+			switch (c.pick({12, 2, 2, 1}))
+			{
+			case 0: filler += std::string(1 + c.pickn(60), (char)c.range('a', 'z')); break;
+			case 1: filler += "\\n"; break;
+			case 2: filler += "\\u00e4"; break;
+			default: filler += "\xc3\xa4"; break;
+			}
+		}
+		switch (c.pickn(4))
+		{
+		case 0: T = "[1,\"" + filler + "\",2]"; break;
+		case 1: T = "{\"" + filler + "\":\"v\"}"; break;
+		case 2: T = "[" + std::string(n, '7') + ",1.5e" + std::string(n / 20, '0') + "1]"; break;
+		default: T = "[1 /*" + filler + "*/ ,2]"; break;
+		}
+		if (c.coin(50))
+			T += '\0';
+		ctx.label("src_long_token");
 	}
 	else
 		T = gen_text(c, ctx);
